@@ -1,4 +1,4 @@
-import OjgVerif.JPMut.LemmasRemove
+import OjgVerif.JPMut.LemmasDel
 /-! # The code as it is now (`Dev.current`): what `Slice.remove` drops is what modify.go's slice loop visits
 
 Since /repo 18e5d18 `inStep` aligns a negative step from the start of the range. `remSel_current`: on an array of length
@@ -132,7 +132,7 @@ theorem remSel_current (n : Nat) (s e t : Option Int) (i : Nat) (hi : i < n) :
     remSel Dev.current n s e t i = (modIdx Dev.current n s e t).contains i := by
   have hc : Dev.current.sliceInclusive = true := rfl
   have he : Dev.current.removeStepEnd = false := rfl
-  simp only [remSel, modIdx, hc, if_true]
+  simp only [remSel, modIdx, inclIdx, hc, if_true]
   cases hb : incBounds n s e t with
   | none => simp
   | some b =>
@@ -149,5 +149,71 @@ theorem remSel_current (n : Nat) (s e t : Option Int) (i : Nat) (hi : i < n) :
       by_cases hm : i ∈ incRange n b
       · rw [decide_eq_true (this.1 hm)]; simp [hm]
       · rw [decide_eq_false (fun h => hm (this.2 h))]; simp [hm]
+
+/-! ## the inclusive reading as a reading of slices -/
+
+theorem modIdx_current (n : Nat) (s e t : Option Int) : modIdx Dev.current n s e t = inclIdx n s e t := rfl
+
+theorem setIdx_current (n : Nat) (s e t : Option Int) : setIdx Dev.current n s e t = inclIdx n s e t := by
+  simp [setIdx, inclIdx, Dev.current]
+
+theorem remSel_incl (n : Nat) (s e t : Option Int) (i : Nat) (hi : i < n) :
+    remSel Dev.current n s e t i = (inclIdx n s e t).contains i := by
+  rw [remSel_current n s e t i hi, modIdx_current]
+
+theorem inclIdx_nodup (n : Nat) (s e t : Option Int) : (inclIdx n s e t).Nodup := by
+  simp only [inclIdx]
+  cases hb : incBounds n s e t with
+  | none => exact List.nodup_nil
+  | some b =>
+    obtain ⟨h1, _, h3, _, h5⟩ := incBounds_spec n s e t b hb
+    simp only [incRange]
+    by_cases hd : 0 < b.step
+    · simp only [hd, if_true]; exact up_nodup n b.start b.step _ h1 hd
+    · simp only [hd, if_false]
+      have hneg : b.step < 0 := by omega
+      rw [List.Nodup, List.pairwise_map]
+      have hp := (progression_pairwise_gt n b.start b.step hneg).sublist (List.takeWhile_sublist (fun i => decide (b.stop ≤ i)))
+      refine List.Pairwise.imp_of_mem ?_ hp
+      intro x y hx hy hxy
+      have hx' := mem_takeWhile_true _ _ x hx
+      have hy' := mem_takeWhile_true _ _ y hy
+      simp only [decide_eq_true_eq] at hx' hy'
+      omega
+
+instance : NodupSlice inclIdx := ⟨inclIdx_nodup⟩
+
+/-- under the inclusive reading every fragment but a union that lists a member twice is good for the code as it is -/
+theorem goodAt_incl (f : Frag) (e : JV) (hf : isDescentF f = false) (hu : ∀ ms, f = .union ms → (unionLocs ms e).Nodup) :
+    GoodAt inclIdx Dev.current f e := by
+  cases f with
+  | filter p => exact Or.inl rfl
+  | union ms => exact hu ms rfl
+  | slice s e' t => intro xs _; rfl
+  | descent => simp [isDescentF] at hf
+  | child k => trivial
+  | nth i => trivial
+  | wild => trivial
+
+theorem goodAtS_incl (f : Frag) (e : JV) (hf : isDescentF f = false) (hu : ∀ ms, f = .union ms → (unionLocs ms e).Nodup) :
+    GoodAtS inclIdx Dev.current f e := by
+  cases f with
+  | slice s e' t => intro xs _; exact setIdx_current _ s e' t
+  | union ms => exact hu ms rfl
+  | descent => simp [isDescentF] at hf
+  | filter p => trivial
+  | child k => trivial
+  | nth i => trivial
+  | wild => trivial
+
+theorem remGood_incl (f : Frag) (c : JV) (hf : isDescentF f = false) : RemGood inclIdx Dev.current f c := by
+  cases f with
+  | union ms => exact Or.inl rfl
+  | slice s e t => intro xs _ i hi; exact remSel_incl xs.length s e t i hi
+  | descent => simp [isDescentF] at hf
+  | child k => trivial
+  | nth i => trivial
+  | wild => trivial
+  | filter p => trivial
 
 end OjgVerif.JPMut
